@@ -13,7 +13,7 @@ ASSUMPTIONS = [
     "the device closes a stream only after its last WRTE was acknowledged (adbd stop-and-wait)",
 ]
 SHARDS = {"quick": 8, "thorough": 16}
-TIME_BUDGET = {"quick": 60, "thorough": 600}
+TIME_BUDGET = {"quick": 300, "thorough": 1800}
 FLOORS = {"quick": {"evaluations": 500, "distinct": 50, "bytes_compared": 10000, "interleave_switches": 300, "late_answers": 100}, "thorough": {"evaluations": 5000, "distinct": 100}}
 
 APIS = ["shell", "exec_out", "streaming_shell", "root"]
